@@ -1,6 +1,6 @@
 (* C14 — read-only and copy-making operations leave a template unchanged.
    Statements only; every proof is `exact <lemma of MutationProofs>` or a computed witness.
-   `mstep` / `mrun` = the code as it is: mstep_gen fixed_state_carry fixed_shared_edge_dicts = mstep_gen true true. *)
+   `mstep` / `mrun` = the code as it is: mstep_gen fixed_state_carry fixed_shared_edge_dicts fixed_D98 = mstep_gen true true false (stage 1 of repair D98). *)
 From Coq Require Import List String ZArith QArith Qcanon Bool Arith.
 From PV Require Import Heap Values ValuesProofs Mutation MutationProofs.
 Import ListNotations.
@@ -11,28 +11,34 @@ Open Scope nat_scope.
    called on the template r, EVERY template c (of any depth d') that had a denotation before — r itself, its sub-circuits,
    templates sharing nodes or operators with it — has the same denotation (equations, defaults, per-node values,
    connectivity).  (For the mechanism before fix D82, fe = false, the derive-and-edit operation has to be excluded.) *)
-Theorem C14_frame_each_operation : forall fx fe d r s o, fe = true \/ is_derive_edit o = false ->
-  forall d' c t, abs d' (fst s) c = Some t -> abs d' (fst (fst (mstep_gen fx fe d r s o))) c = Some t.
+Theorem C14_frame_each_operation : forall fx fe f98 d r s o, op_ok fe f98 o = true ->
+  forall d' c t, abs d' (fst s) c = Some t -> abs d' (fst (fst (mstep_gen fx fe f98 d r s o))) c = Some t.
 Proof. exact frame_step. Qed.
 Print Assumptions C14_frame_each_operation.
 
-(* ... and after any finite sequence of them *)
-Theorem C14_frame_any_sequence : forall fx fe d r ops s, fe = true \/ no_derive_edit ops = true ->
-  forall d' c t, abs d' (fst s) c = Some t -> abs d' (fst (fst (mrun_gen fx fe d r s ops))) c = Some t.
+(* ... and after any finite sequence of them.  `op_ok fe f98 o` excludes derive-and-edit for the mechanism before fix D82
+   (fe = false) and collect_edges / get_edges for the mechanism before fix D98 (f98 = false); it is `true` for fe = f98 = true. *)
+Theorem C14_frame_any_sequence : forall fx fe f98 d r ops s, ops_ok fe f98 ops = true ->
+  forall d' c t, abs d' (fst s) c = Some t -> abs d' (fst (fst (mrun_gen fx fe f98 d r s ops))) c = Some t.
 Proof. exact frame_sequence. Qed.
 Print Assumptions C14_frame_any_sequence.
 
 (* Full statement: every operation of every sequence returns what the unchanged denotation says: reads read the tree,
    every compile starts from the declared initial values, every run succeeds from the declared initial values. *)
-Definition C14_full_statement (fixed fixed_e : bool) : Prop := forall d r t ops h, abs d h r = Some t ->
-  snd (mrun_gen fixed fixed_e d r (h, book0) ops) = map (mstepS d t) ops.
+Definition C14_full_statement (fixed fixed_e f98 : bool) : Prop := forall d r t ops h, abs d h r = Some t ->
+  snd (mrun_gen fixed fixed_e f98 d r (h, book0) ops) = map (mstepS d t) ops.
 
-(* Headline (the code as it is, after fixes D74 and D82): the full statement for EVERY sequence of the listed operations —
-   any interleaving of compiles and runs with both vectorize settings, and deriving a template and editing its edges
-   included; no hypothesis besides the existence of the denotation. *)
-Theorem C14_full : C14_full_statement fixed_state_carry fixed_shared_edge_dicts.
+(* The code as it is (fixes D74 and D82 in, D98 prepared): the full statement for every sequence without collect_edges /
+   get_edges calls — the guard of the open finding D98; it vanishes when Mutation.fixed_D98 is switched to true. *)
+Theorem C14_partial : forall d r t ops h, abs d h r = Some t -> ops_ok fixed_shared_edge_dicts fixed_D98 ops = true ->
+  snd (mrun d r (h, book0) ops) = map (mstepS d t) ops.
 Proof. exact outputs_refine_head. Qed.
-Print Assumptions C14_full.
+Print Assumptions C14_partial.
+
+(* with the repair fix_D98 (collect_edges prefixes in a copy): no hypothesis *)
+Theorem C14_full_when_fixed : C14_full_statement true true true.
+Proof. exact outputs_refine_all. Qed.
+Print Assumptions C14_full_when_fixed.
 
 Theorem C14_deepcopy_only_appends : forall d h m c h2 m2 c', copy_circ d h m c = Some (h2, m2, c') -> extends h h2.
 Proof. exact copy_circ_extends. Qed.
@@ -53,7 +59,7 @@ Definition sed_ops : list mop :=
   [MDeriveEdit "A/op/x" "B/op/u" [("weight"%string, Sc (mkq 64 1))]; MRead (QEdge "A/op/x" "B/op/u")].
 Example C14_shared_edge_dicts_regression :
   snd (mrun 0 3 (w_heap, book0) sed_ops) = [RDone; REdge (Some [("weight"%string, Sc (mkq 2 1))])] /\
-  snd (mrun_gen true false 0 3 (w_heap, book0) sed_ops) = [RDone; REdge (Some [("weight"%string, Sc (mkq 64 1))])].
+  snd (mrun_gen true false true 0 3 (w_heap, book0) sed_ops) = [RDone; REdge (Some [("weight"%string, Sc (mkq 64 1))])].
 Proof. split; vm_compute; reflexivity. Qed.
 Print Assumptions C14_shared_edge_dicts_regression.
 
@@ -63,9 +69,9 @@ Print Assumptions C14_shared_edge_dicts_regression.
 Example C14_state_carry_regression :
   snd (mrun 0 3 (w_heap, book0) [MRun false; MCompile false false; MRun false; MCompile false true; MCompile false false]) =
     [RRun true; RCompile YDeclared; RRun true; RCompile YDeclared; RCompile YDeclared] /\
-  snd (mrun_gen false false 0 3 (w_heap, book0) [MRun false; MCompile false false]) = [RRun true; RCompile YCarried] /\
-  snd (mrun_gen false false 0 3 (w_heap, book0) [MCompile false false; MRun false]) = [RCompile YDeclared; RRun false] /\
-  snd (mrun_gen false false 0 3 (w_heap, book0) [MCompile false true; MCompile false false]) = [RCompile YDeclared; RCompile YErr].
+  snd (mrun_gen false false true 0 3 (w_heap, book0) [MRun false; MCompile false false]) = [RRun true; RCompile YCarried] /\
+  snd (mrun_gen false false true 0 3 (w_heap, book0) [MCompile false false; MRun false]) = [RCompile YDeclared; RRun false] /\
+  snd (mrun_gen false false true 0 3 (w_heap, book0) [MCompile false true; MCompile false false]) = [RCompile YDeclared; RCompile YErr].
 Proof. repeat split; vm_compute; reflexivity. Qed.
 Print Assumptions C14_state_carry_regression.
 
@@ -81,3 +87,25 @@ Example C14_nonvacuous :
   List.length w_heap < List.length (fst (fst (mrun 1 4 (w_heap, book0) nv_ops))).
 Proof. split; [eexists; split; vm_compute; reflexivity|apply Nat.ltb_lt; vm_compute; reflexivity]. Qed.
 Print Assumptions C14_nonvacuous.
+
+(* finding D98 (open until fix_D98 lands): a sub-circuit edge goes through an edge template whose extra input is the variable
+   path C/op/x (a Ref attribute).  Every get_edges / collect_edges call on the parent prefixes that path in the
+   sub-circuit's own dictionary: the second call returns c1/c1/C/op/x, and the template's denotation has changed. *)
+Definition r_heap : heap :=
+  [OOp "op" ["d/dt * x = k*r + g + u"%string]
+       [("x"%string, Sc (mkq 1 4)); ("k"%string, Sc (mkq 1 2)); ("r"%string, Sc (mkq 2 1)); ("g"%string, Sc (mkq 1 1)); ("u"%string, Sc (mkq 0 1))];
+   ONode [(0, [])];
+   OCirc [("A"%string, 1); ("B"%string, 1); ("C"%string, 1)]
+         [("A/op/x"%string, "B/op/u"%string, [("weight"%string, Sc (mkq 2 1)); ("et/eop/t_ref"%string, Ref "C/op/x")])];
+   OCirc [("c1"%string, 2)] []].
+Theorem C14_collect_edges_before_fix : ~ C14_full_statement true true false.
+Proof.
+  intros H. destruct (abs 1 r_heap 3) as [t|] eqn:E; [|vm_compute in E; discriminate].
+  specialize (H 1 3 t [MRead QEdges; MRead QEdges] r_heap E). vm_compute in E. injection E as <-. vm_compute in H. discriminate.
+Qed.
+Print Assumptions C14_collect_edges_before_fix.
+Example C14_collect_edges_witness :
+  abs 0 (fst (fst (mrun_gen true true false 1 3 (r_heap, book0) [MRead QEdges]))) 2 <> abs 0 r_heap 2 /\
+  abs 0 (fst (fst (mrun_gen true true true 1 3 (r_heap, book0) [MRead QEdges; MRead QEdges]))) 2 = abs 0 r_heap 2.
+Proof. split; [vm_compute; discriminate|vm_compute; reflexivity]. Qed.
+Print Assumptions C14_collect_edges_witness.
